@@ -93,6 +93,11 @@ def one_case(src, idx, seed, tier, keep=False):
         name, opts, size = [c for c in corrupt.IMG_CONFIGS if c[0] == ("ext3" if idx % 2 == 0 else "ext4_1k")][0]
         base = corrupt.build_image(src, WORK, name, opts, size, 1)
         desc = dir_cycle(src, base, img)
+    elif idx < nd + 2 + 2 * len(corrupt.PAIRS):
+        k = idx - nd - 2
+        name, opts, size = [c for c in corrupt.IMG_CONFIGS if c[0] == ("ext4_metabg48" if k % 2 == 0 else "ext4_1k")][0]
+        base = corrupt.build_image(src, WORK, name, opts, size, 1)
+        desc = corrupt.corrupt(base, img, r, directed=corrupt.PAIRS[k // 2])
     else:
         desc = corrupt.corrupt(base, img, r)
     recipe = {"base": name, "mke2fs": opts, "size": size, "build_seed": 1 + (idx // 200) % 3, "case_index": idx, "operators": desc}
@@ -112,7 +117,7 @@ def one_case(src, idx, seed, tier, keep=False):
 
 def campaign(src, seed, tier, n=None):
     os.makedirs(WORK, exist_ok=True)
-    n = n or (120 if tier == "quick" else 6000)
+    n = n or (140 if tier == "quick" else 6000)
     for i, (name, opts, size) in enumerate(corrupt.IMG_CONFIGS):
         corrupt.build_image(src, WORK, name, opts, size, 1)
     with concurrent.futures.ThreadPoolExecutor(16) as ex:
